@@ -143,6 +143,29 @@ def _qmag(g, hs, s):
     return float(np.abs(g) @ np.abs(s) + 0.5 * np.abs(s) @ np.abs(hs))
 
 
+def _hp_noise(hess_prod, vecs):
+    """Absolute uncertainty of 0.5*v'H v as evaluated through ``hess_prod``.
+
+    In real runs hess_prod is the Lagrangian model's implicit+explicit
+    Hessian product, in which terms of size 1e30 (models of barrier-clipped
+    values) cancel: hess_prod(v) then differs from the product with the
+    Hessian materialised from unit vectors by far more than eps*|Hv|.  That
+    discrepancy is a measured estimate of the evaluation noise."""
+    n = vecs[0].size
+    try:
+        h = np.array([_f(hess_prod(e)) for e in np.eye(n)]).T
+    except Exception:  # noqa: BLE001
+        return 0.0
+    if not np.all(np.isfinite(h)):
+        return np.inf
+    noise = 0.0
+    for v in vecs:
+        hv = _f(hess_prod(v))
+        noise += 0.5 * float(np.abs(v) @ np.abs(hv - h @ v))
+        noise += 0.5 * 8 * EPS * float(np.abs(v) @ (np.abs(h) @ np.abs(v)))
+    return noise
+
+
 def no_increase(name, s, g, hess_prod):
     col = _col()
     if col is None:
@@ -154,6 +177,8 @@ def no_increase(name, s, g, hess_prod):
     hs = _f(hess_prod(s))
     q = float(g @ s + 0.5 * s @ hs)
     mag = _qmag(g, hs, s)
+    if q > 0:
+        q = max(q - 10.0 * _hp_noise(hess_prod, [s]), 0.0)
     rel = q / mag if mag > 0 else (0.0 if q <= 0 else np.inf)
     col.zone("C16", "model_increase", max(rel, 0.0),
              f"{name}: q(s)={q!r} > 0 = q(0) (relative {rel:.3g})",
@@ -212,6 +237,8 @@ def cauchy_decrease(s, g, hess_prod, xl, xu, delta):
     col.tags.add("cauchy_nontrivial")
     mag = _qmag(g, hs, s) + _qmag(g, hc, sc)
     gap = q - qc
+    if gap > HELD * mag:
+        gap = max(gap - 10.0 * _hp_noise(hess_prod, [s, sc]), 0.0)
     rel = gap / mag if mag > 0 else 0.0
     if rel > BAD:
         n = g.size
